@@ -482,64 +482,86 @@ func (c *Ctx) hashmapSiblings() {
 		return
 	}
 	info := val.Pkg.TypesInfo
-	// bucket computations
-	for _, fi := range []*FuncInfo{val, put, reh} {
-		name := funcName(fi.Obj)
-		r := recvObj(info, fi.Decl)
-		n := 0
-		for _, call := range callsIn(fi.Decl.Body, true) {
-			if calleeOf(info, call) != idx.Obj || len(call.Args) != 2 {
-				continue
-			}
-			n++
-			// first argument: <key>.HashCode()
-			okHash := false
-			if hc, ok := unparen(call.Args[0]).(*ast.CallExpr); ok {
-				if fn := calleeOf(info, hc); fn != nil && fn.Name() == "HashCode" {
-					okHash = true
+	// a method and the unexported methods of the same type it calls (the bucket search may be shared)
+	unitsOf := func(fi *FuncInfo) []*FuncInfo {
+		out := []*FuncInfo{fi}
+		seen := map[*types.Func]bool{fi.Obj: true}
+		for i := 0; i < len(out) && len(out) < 6; i++ {
+			for _, call := range callsIn(out[i].Decl.Body, true) {
+				g := calleeOf(info, call)
+				if g == nil || seen[g] || g.Exported() || g.Pkg() != fi.Obj.Pkg() || g == idx.Obj || g == reh.Obj {
+					continue
+				}
+				if gi := c.FuncOfObj(g); gi != nil && gi.Decl.Body != nil && gi.Decl.Recv != nil {
+					seen[g] = true
+					out = append(out, gi)
 				}
 			}
-			// second: the capacity in force: r.capacity, or a local that this function stores into r.capacity
-			capKey := c.canon(info, call.Args[1], nil)
-			okCap := capKey == r.Name()+".capacity"
-			if !okCap {
-				if lo := identObj(info, call.Args[1]); lo != nil {
-					storesCap, tableSized := false, false
-					for _, st := range c.fieldStores(info, fi.Decl.Body, nil) {
-						if st.field.Name() == "capacity" && identObj(info, st.recvE) == r && identObj(info, st.rhs) == lo {
-							storesCap = true
-						}
-						if st.field.Name() == "mapArray" && identObj(info, st.recvE) == r && !st.elem {
-							// the new table was made with that size
-							if to := identObj(info, st.rhs); to != nil {
-								ast.Inspect(fi.Decl.Body, func(m ast.Node) bool {
-									if as, ok := m.(*ast.AssignStmt); ok && len(as.Lhs) == 1 && identObj(info, as.Lhs[0]) == to && len(as.Rhs) == 1 {
-										if mk, ok := unparen(as.Rhs[0]).(*ast.CallExpr); ok && len(mk.Args) == 2 && identObj(info, mk.Args[1]) == lo {
-											tableSized = true
+		}
+		return out
+	}
+	// bucket computations
+	for _, fi0 := range []*FuncInfo{val, put, reh} {
+		name := funcName(fi0.Obj)
+		n := 0
+		for _, fi := range unitsOf(fi0) {
+			r := recvObj(info, fi.Decl)
+			for _, call := range callsIn(fi.Decl.Body, true) {
+				if calleeOf(info, call) != idx.Obj || len(call.Args) != 2 {
+					continue
+				}
+				n++
+				// first argument: <key>.HashCode()
+				okHash := false
+				if hc, ok := unparen(call.Args[0]).(*ast.CallExpr); ok {
+					if fn := calleeOf(info, hc); fn != nil && fn.Name() == "HashCode" {
+						okHash = true
+					}
+				}
+				// second: the capacity in force: r.capacity, or a local that this function stores into r.capacity
+				capKey := c.canon(info, call.Args[1], nil)
+				okCap := capKey == r.Name()+".capacity"
+				if !okCap {
+					if lo := identObj(info, call.Args[1]); lo != nil {
+						storesCap, tableSized := false, false
+						for _, st := range c.fieldStores(info, fi.Decl.Body, nil) {
+							if st.field.Name() == "capacity" && identObj(info, st.recvE) == r && identObj(info, st.rhs) == lo {
+								storesCap = true
+							}
+							if st.field.Name() == "mapArray" && identObj(info, st.recvE) == r && !st.elem {
+								// the new table was made with that size
+								if to := identObj(info, st.rhs); to != nil {
+									ast.Inspect(fi.Decl.Body, func(m ast.Node) bool {
+										if as, ok := m.(*ast.AssignStmt); ok && len(as.Lhs) == 1 && identObj(info, as.Lhs[0]) == to && len(as.Rhs) == 1 {
+											if mk, ok := unparen(as.Rhs[0]).(*ast.CallExpr); ok && len(mk.Args) == 2 && identObj(info, mk.Args[1]) == lo {
+												tableSized = true
+											}
 										}
-									}
-									return true
-								})
+										return true
+									})
+								}
 							}
 						}
+						okCap = storesCap && tableSized
 					}
-					okCap = storesCap && tableSized
 				}
+				c.Check(okHash && okCap, "SIBLING", fmt.Sprintf("%s/bucket#%d", name, n), call.Pos(), "bucket = indexFor(key.HashCode(), capacity in force)",
+					"bucket computed as "+c.src(call)+": not indexFor(key.HashCode(), capacity in force) — look-up, insertion and resize would disagree on where a key lives").Clause = clause
 			}
-			c.Check(okHash && okCap, "SIBLING", fmt.Sprintf("%s/bucket#%d", name, n), call.Pos(), "bucket = indexFor(key.HashCode(), capacity in force)",
-				"bucket computed as "+c.src(call)+": not indexFor(key.HashCode(), capacity in force) — look-up, insertion and resize would disagree on where a key lives").Clause = clause
 		}
 		if n == 0 {
-			c.Violation("SIBLING", name+"/bucket", fi.Decl.Pos(), name+" does not compute its bucket with indexFor: look-up, insertion and resize disagree on where a key lives").Clause = clause
+			c.Violation("SIBLING", name+"/bucket", fi0.Decl.Pos(), name+" does not compute its bucket with indexFor: look-up, insertion and resize disagree on where a key lives").Clause = clause
 		}
 		// any other indexing of mapArray must use a value obtained from indexFor or a range over the table
 	}
 	// equality through HashEquals in Value and PutValue
 	for _, fi := range []*FuncInfo{val, put} {
 		found := false
-		for _, call := range callsIn(fi.Decl.Body, true) {
-			if fn := calleeOf(info, call); fn != nil && fn.Name() == "HashEquals" {
-				found = true
+		for _, u := range unitsOf(fi) {
+			for _, call := range callsIn(u.Decl.Body, true) {
+				if fn := calleeOf(info, call); fn != nil && fn.Name() == "HashEquals" {
+					found = true
+				}
 			}
 		}
 		c.Check(found, "SIBLING", funcName(fi.Obj)+"/HashEquals", fi.Decl.Pos(), "keys compared with HashEquals", funcName(fi.Obj)+" does not compare keys with HashEquals").Clause = clause
